@@ -57,9 +57,9 @@ class VComp(TimeComponent):
                 self.outputs.add(name=o["name"], time=None if o["kind"] == "static" else self.time, grid=NoGrid(),
                                  units="", static=o["kind"] == "static")
         for i in self.spec["inputs"]:
-            if i["kind"] == "push":
+            if i["kind"] in ("push", "static_push"):
                 self.inputs.add(CallbackInput(callback=lambda c, t: None, name=i["name"], time=self.time,
-                                              grid=NoGrid(), units=None))
+                                              grid=NoGrid(), units=None, static=i["kind"] == "static_push"))
             else:
                 self.inputs.add(name=i["name"], time=self.time, grid=NoGrid(), units=None, static=i["kind"] == "static")
         self.create_connector()
@@ -108,7 +108,7 @@ def generate(tape, tier="quick"):
         for k in range(tape.weighted([(1, 5), (2, 3), (0, 2)])):
             c["outputs"].append({"name": f"o{k}", "kind": tape.weighted([("push", 5), ("pull", 3), ("static", 2)])})
         for k in range(tape.weighted([(1, 5), (2, 3), (0, 2)])):
-            c["inputs"].append({"name": f"i{k}", "kind": tape.weighted([("pull", 5), ("push", 3), ("static", 2)])})
+            c["inputs"].append({"name": f"i{k}", "kind": tape.weighted([("pull", 5), ("push", 3), ("static", 2), ("static_push", 1)])})
         comps.append(c)
     free = [[ci, ii] for ci, c in enumerate(comps) for ii in range(len(c["inputs"]))]
     free = tape.shuffle(free)
@@ -166,9 +166,9 @@ def classify(sc):
                 continue
             sci, soi, path = fed[(ci, ii)]
             okind = comps[sci]["outputs"][soi]["kind"]
-            if inp["kind"] == "static" and okind != "static":
+            if inp["kind"] in ("static", "static_push") and okind != "static":
                 reasons.add("static-from-nonstatic")
-            if okind == "pull" and (any(a in PUSH_BASED for a in path) or inp["kind"] == "push"):
+            if okind == "pull" and (any(a in PUSH_BASED for a in path) or inp["kind"] in ("push", "static_push")):
                 reasons.add("dead-link")
             if sci not in inside:
                 reasons.add("missing-upstream")
